@@ -34,6 +34,11 @@ type node struct {
 	// set by stop() before it asks the registered processes to terminate
 	stopping int32
 
+	// processes that are running their ProcessInit callback (pid gen.PID -> *process).
+	// They are not in 'processes' yet, but can already be linked (Link*, Spawn with
+	// LinkChild): the exit signals for them are queued in their mailbox
+	initializing sync.Map
+
 	env sync.Map // env name gen.Env -> any
 
 	security    gen.SecurityOptions
@@ -1720,7 +1725,9 @@ func (n *node) spawn(factory gen.ProcessFactory, options gen.ProcessOptionsExtra
 	}
 	p.log.setSource(logSource)
 
+	n.initializing.Store(p.pid, p)
 	if err := behavior.ProcessInit(p, options.Args...); err != nil {
+		n.initializing.Delete(p.pid)
 		n.unregisterSpawnName(p, err)
 		// make sure to notify children that might have been spawned
 		// (during ProcessInit callback) with the enabled LinkParent option
@@ -1771,6 +1778,7 @@ func (n *node) spawn(factory gen.ProcessFactory, options gen.ProcessOptionsExtra
 	// register process and switch it to the sleep state
 	p.state = int32(gen.ProcessStateSleep)
 	n.processes.Store(p.pid, p)
+	n.initializing.Delete(p.pid)
 
 	// do not count system app processes
 	if p.application != system.Name {
